@@ -23,6 +23,12 @@ Theorem C20_ext_set : forall nh, nh < 256 -> is_ext nh = existsb (N.eqb nh) ipp_
 Proof. exact ext_set. Qed.
 Print Assumptions C20_ext_set.
 
+(* The reference walk is not cut short by its fuel: any fuel above the packet length gives the same result. *)
+Theorem C20_spec_fuel : forall d f, (length d < f)%nat ->
+  spec_walk d = spec_chain f (nth 6 d 0) (skipn 40 d) 40 false.
+Proof. exact spec_walk_fuel. Qed.
+Print Assumptions C20_spec_fuel.
+
 (* Totality and panic freedom of the model: a classification or an error, never a failed bounds check. *)
 Theorem C20_total : forall d incoming, bytes_ok d = true ->
   (exists fp, parse d incoming = Ok fp) \/ (exists e, parse d incoming = Err e).
